@@ -75,6 +75,7 @@ func c09Run(n int, hist []c09Act) (fail string, interesting bool) {
 	defer h.Close()
 	unanswered := map[int16]client.InFlightRequest{}
 	pages := map[int16]int32{}
+	var refusedFrame *frame.Frame
 	step := func(i int, what string, args ...interface{}) string {
 		return fmt.Sprintf("N=%d history %v step %d: %s", n, hist[:i+1], i, fmt.Sprintf(what, args...))
 	}
@@ -82,7 +83,14 @@ func c09Run(n int, hist []c09Act) (fail string, interesting bool) {
 		switch a.Kind {
 		case "managed":
 			f := reqFrame(client.ManagedStreamId)
+			if refusedFrame != nil && i%2 == 0 {
+				f = refusedFrame // the caller retries the very frame object that was refused earlier
+			}
+			refusedFrame = nil
 			req, err := h.Enqueue(f)
+			if err != nil {
+				refusedFrame = f
+			}
 			if err == nil {
 				id := f.Header.StreamId
 				if id < 1 || int(id) > n {
@@ -534,6 +542,16 @@ func c09ClosedEarly(rt *rapid.T) {
 		if _, err := h.Enqueue(f); err == nil {
 			rt.Fatalf("N=%d maxPending=%d: with all %d requests unanswered (%d of them completed early by %s, their final responses still to come) a further managed send was accepted with stream id %d",
 				n, maxPending, n, early, map[bool]string{true: "timeout", false: "overflow"}[byTimeout], f.Header.StreamId)
+		}
+	}
+	if explicit && early > 0 {
+		for _, e := range reqs {
+			if e.mode != "normal" {
+				if _, err := h.Enqueue(reqFrame(e.id)); err == nil {
+					rt.Fatalf("N=%d: caller-chosen stream id %d was accepted again while the request that carries it (completed early by %s) is still unanswered", n, e.id, e.mode)
+				}
+				break
+			}
 		}
 	}
 	// every request's final response arrives (the early-completed ones may refuse the frame; their id must be freed anyway)
